@@ -58,6 +58,17 @@ def drv_twice(v, key, default):
     return mid, last, (e.fields[0].value, st.value)
 
 
+def drv_casekeys(v, default):
+    """'Title' and 'title' are two fields: each gets its own enclosing back"""
+    e = Entry("article", "k", [Field("Title", '"' + v + '"'), Field("title", "{" + v + "}"), Field("TITLE", v)])
+    lib = Library([e])
+    lib = RemoveEnclosingMiddleware(True).transform(lib)
+    mid = [f.value for f in e.fields]
+    add = AddEnclosingMiddleware(reuse_previous_enclosing=True, enclose_integers=True, default_enclosing=default, allow_inplace_modification=True)
+    lib = add.transform(lib)
+    return mid, [f.value for f in e.fields]
+
+
 def drv_reuse(v1, v2, key, reuse, encl_int, default):
     """one Remove and one Add instance on two libraries in a row; the second must come out as from fresh instances"""
     def run(rm, add, v):
@@ -378,6 +389,40 @@ def task_twice(L, key, default):
     return rec.result(worlds=len(worlds))
 
 
+def task_casekeys(L, default):
+    eng = Engine()
+    rec = Recorder(eng)
+    v = eng.sym_str("c", L, "x1 {}")
+    g = True
+    if L >= 1:
+        g = b_all([b_not(ch_eq(chars(v)[0], " ")), b_not(ch_eq(chars(v)[-1], " ")), b_not(ch_eq(chars(v)[0], "{")), b_not(ch_eq(chars(v)[-1], "}"))])
+    E = eng.I.models.eq_simple
+    worlds = eng.run(drv_casekeys, [v, default], guard=g)
+
+    def rp(m):
+        import logging
+        logging.disable(logging.CRITICAL)
+        val = eng.model_str(m, v)
+        try:
+            mid, fin = drv_casekeys(val, default)
+        except Exception as ex:  # noqa
+            from pysym.harness import guard_repo_exception
+            guard_repo_exception(ex)
+            return {"input": [val, default], "observed": f"raised {type(ex).__name__}: {ex}", "expected": "no exception"}
+        if mid == [val, val, val] and fin == ['"' + val + '"', "{" + val + "}", val]:
+            return None
+        return {"input": [val, default], "observed": {"after removal": mid, "after add(reuse)": fin}, "expected": ['"' + val + '"', "{" + val + "}", val]}
+    for W in worlds:
+        if W.exc is not None:
+            rec.require(W, True, "casekeys-no-exception", rp)
+            continue
+        mid, fin = W.result
+        good = b_and(E(mid, [v, v, v]), E(fin, [mk(('"',) + chars(v) + ('"',)), mk(("{",) + chars(v) + ("}",)), v]))
+        rec.require(W, b_not(good), "fields-differing-in-case-keep-their-own-enclosing", rp)
+        rec.witness("case-variant-keys", W)
+    return rec.result(worlds=len(worlds))
+
+
 def task_reuse(L1, L2, key, reuse, encl_int, default):
     eng = Engine()
     rec = Recorder(eng)
@@ -421,7 +466,7 @@ def main():
     chk.assumptions = ["values contain only the alphabet characters; '1' is the only digit",
                        "re-parse clause: brace balance is escape-aware (a backslash escapes the next character), value must not end in an unescaped backslash, and for the quote default contains no bare quote at depth 0 - as in the statement",
                        "integer rule: 'digit strings' are str.isdigit() strings over the alphabet (ASCII '1'; '1_1' and the like are not digit strings)"]
-    chk.expected_vacuity = ["stripped-{", 'stripped-"', "digits-left-unenclosed", "int-left-unenclosed", "balanced-value-reparsed", "instance-reused", "removed-twice"]
+    chk.expected_vacuity = ["stripped-{", 'stripped-"', "digits-left-unenclosed", "int-left-unenclosed", "balanced-value-reparsed", "instance-reused", "removed-twice", "case-variant-keys"]
     for key, reuse, encl_int, default, with_remove in itertools.product(("year", "title"), (True, False), (True, False), ("{", '"'), (True, False)):
         for L in range(LS, -1, -1):
             chk.add_task(f"str-{key}-r{int(reuse)}-i{int(encl_int)}-{default}-rm{int(with_remove)}-L{L}", task_str, L=L, key=key,
@@ -435,6 +480,10 @@ def main():
             for L in (2, 1):
                 chk.add_task(f"str-{key}-r{int(reuse)}-i{int(encl_int)}-{default}-rm1-L{L}", task_str, L=L, key=key,
                              reuse=reuse, encl_int=encl_int, default=default, with_remove=True)
+    chk.bounds["keys differing in case"] = "entry with Title = \"V\", title = {V}, TITLE = V (V of length 0..3 over x 1 blank braces, not starting / ending in a blank or brace): Remove, Add(reuse) restores all three"
+    for default in ("{", '"'):
+        for L in (3, 2, 1, 0):
+            chk.add_task(f"casekeys-{default}-L{L}", task_casekeys, L=L, default=default)
     chk.bounds["removal applied twice"] = "values of length 0..5, key year / title, both defaults: Remove, Remove, Add(reuse) gives the value as it was before the last removal"
     for key, default in itertools.product(("year", "title"), ("{", '"')):
         for L in range(5, -1, -1):
